@@ -1,4 +1,18 @@
-/- dsmodel_fi: model driver stub (filled in when the family is built). -/
-def main (_args : List String) : IO UInt32 := do
-  IO.eprintln "dsmodel_fi: not built yet"
-  return 2
+/- dsmodel_fi: `fi` = frequent-items histories (L1 model, free choices resolved by the L2 table model). -/
+import DSModel.Fi.Driver
+import DSModel.DriverLoop
+import DSGen.Fi
+open DS
+
+def fiTun : Fi.Tun :=
+  { lfNum := DSGen.fi_LOAD_FACTOR_num, lfDen := DSGen.fi_LOAD_FACTOR_den,
+    maxSample := DSGen.fi_MAX_SAMPLE_SIZE,
+    epsNum := DSGen.fi_EPSILON_FACTOR_num, epsDen := DSGen.fi_EPSILON_FACTOR_den,
+    lgMin := DSGen.fi_LG_MIN_MAP_SIZE,
+    goldNum := DSGen.fi_GOLDEN_RATIO_RECIPROCAL_num, goldDen := DSGen.fi_GOLDEN_RATIO_RECIPROCAL_den,
+    driftLimit := DSGen.fi_DRIFT_LIMIT }
+
+def main (args : List String) : IO UInt32 := do
+  match args with
+  | ["fi"] => runDriver (#[] : Fi.Objs) (Fi.stepLine fiTun)
+  | _ => IO.eprintln "usage: dsmodel_fi fi"; return 2
